@@ -5,7 +5,43 @@ import os
 VERIF = os.path.dirname(os.path.dirname(os.path.abspath(__file__)))
 ALL = ['C%02d' % i for i in range(1, 21)]
 
+DISP_NOTE = ('trusted: Coq kernel + vm_compute; hand-written model of dispatcher.py/v20.py validated only on the generated inputs; '
+             'json loader verdict, CPython call binding (Model/Bind.v) and user code (methods, middlewares, handlers) enter as '
+             'oracle data / parameters; library-generated message texts are abstracted to "<text>"; event-loop scheduling is C10.')
+
 CLAIMED = {
+    'C01': dict(
+        text='Theorems about the Gallina model of Dispatcher/AsyncDispatcher.dispatch: for every configuration, every loader verdict '
+             'inside the loader contract (hence every request text) and every context, dispatch returns (never raises) provided user '
+             'middlewares keep the id discipline, and whatever document it returns satisfies an independently written JSON-RPC 2.0 '
+             'response grammar (non-empty array or object, id string/integer/null, exactly one of result/error) with the codes tuple '
+             'equal to the codes of the document. Correspondence: member-alphabet products, batches, non-JSON, huge integer literals, '
+             'nesting, both dispatchers, max_batch_size around the length.',
+        note=DISP_NOTE, technique='Coq proof (totality + well-formedness of dispatch, induction over batch lists) + correspondence by vm_compute',
+        design='6 C01'),
+    'C02': dict(
+        text='Theorems: a call is answered by one response with the identical (typed) id, a notification by nothing on every path; an '
+             'accepted batch of ANY length equals the in-order collection of what its elements get alone (document, codes, execution log); '
+             'a rejected batch executes nothing; one execution per bound element and no other. Correspondence is relational: every '
+             'batch is also dispatched element by element on fresh dispatchers and the Coq predicate compares the two.',
+        note=DISP_NOTE, technique='Coq proof (batch = map over elements by induction; exactly-once log lemma) + relational correspondence by vm_compute',
+        design='6 C02'),
+    'C03': dict(
+        text='Theorems: the complete verdict table of the model (non-JSON -> -32700 id null, invalid request / batch -> -32600 id null '
+             'with empty log, unknown method -> -32601, bind/validation failure -> -32602 without a call event, protocol error -> the '
+             'same error field for field with data kept iff set, any other exception -> the constant -32000 error in which the exception '
+             'does not occur), with the codes re-proved against the constants regenerated from the live tree. Correspondence: every '
+             'failure kind as call / notification / at each batch position with marker strings searched for in the response.',
+        note=DISP_NOTE, technique='Coq proof (verdict lemmas over the dispatcher model, constants regenerated from source) + correspondence by vm_compute',
+        design='6 C03'),
+    'C12': dict(
+        text='Theorems for stacks of ANY height: with no short-circuit the trace is Enter 0..k-1, inner handler on the fully rewritten '
+             'request, Exit k-1..0 and the chain returns what the outermost returns; a short-circuiting middleware makes the outcome '
+             'independent of everything below it; error handlers are a left fold over generic ++ per-code(raised code) with each input '
+             'logged; no handler event on success or for rejected documents; batch elements each pass the chain once in request order. '
+             'Correspondence: instrumented middleware/handler stacks, every request kind, batches compared element-wise.',
+        note=DISP_NOTE, technique='Coq proof (induction over the middleware stack / handler list) + correspondence by vm_compute',
+        design='6 C12'),
     'C05': dict(
         text='Theorems about the Gallina model of to_json/from_json for requests, responses, errors and batches of ANY length and '
              'payload: from_json(to_json m) returns m up to the normalisation the wire form forces (the spellings of "no parameters"; '
